@@ -35,7 +35,7 @@ VARIABLES m,      \* sequence of [k |-> normalized name, vs |-> sequence of valu
 vars == <<m, c, hasc, last, nv, ret, err>>
 
 (* cfg files cannot hold sequences, so the alphabets are selected by number *)
-NameSets == <<{<<97>>, <<65>>, <<98>>},                                             \* a A b
+NameSets == <<{<<97>>, <<65>>, <<120, 45, 89>>},                                    \* a A x-Y
               {<<97>>, <<65>>, <<120, 45, 121>>, <<88, 45, 89>>, <<97, 32>>},        \* a A x-y X-Y "a " (invalid)
               {<<97>>, <<65>>},                                                      \* a A
               {<<97>>, <<65>>, <<98>>, <<120, 45, 121>>, <<88, 45, 89>>, <<120, 45, 89>>}>>   \* a A b x-y X-Y x-Y
